@@ -514,6 +514,8 @@ def judge(plan, result, refs):
             stats['limexp_seen'].add(limexp)
         ref_req = [cls, limexp, terms, bool(sp.get('np'))]
         ref_recs, extra = refs.get(ref_req)
+        if stats['compared'] == 0 and nfed <= 60:
+            stats['refsample'] = [ref_req]
         stats['compared'] += nfed
         detail = None
         if recs != ref_recs:
